@@ -72,10 +72,23 @@ class StrLang:
 
     # ------------------------------------------------------------------ views
     def lift(self, lang: DFA, view) -> DFA:
+        """Language of the PARAMETER for which the string seen through ``view`` lies in ``lang``.
+
+        Views compose: ('whole',) | ('strip', parent) | (kind, d, parent) with kind one of
+        head / sep / tail / rhead / rsep / rtail of a partition at the single character d.
+        """
         L = self.L
         kind = view[0]
         if kind == "whole":
             return lang
+        parent = view[-1]
+        if kind == "strip":
+            # s.strip() in lang  <=>  s in WS* . (lang & T) . WS*, T = no leading/trailing whitespace
+            nows = self.alpha.all - self.WS
+            edge = L.sym(nows)
+            T = union(L.EPS, union(edge, L.concat(edge, L.SIGMA_STAR, edge)))
+            here = minimise(L.concat(self.BLANK, inter(lang, T), self.BLANK))
+            return self.lift(here, parent)
         d = view[1]
         if len(d) != 1:
             raise Unsupported("multi-character partition separator")
@@ -83,21 +96,23 @@ class StrLang:
         NOD = L.free_of(d)
         eps_in = lang.start in lang.acc
         if kind == "head":
-            return minimise(L.concat(inter(lang, NOD), union(L.EPS, L.concat(D, L.SIGMA_STAR))))
-        if kind == "tail":
+            here = L.concat(inter(lang, NOD), union(L.EPS, L.concat(D, L.SIGMA_STAR)))
+        elif kind == "tail":
             r = L.concat(NOD, D, lang)
-            return minimise(union(r, NOD) if eps_in else r)
-        if kind == "rtail":
+            here = union(r, NOD) if eps_in else r
+        elif kind == "rtail":
             r = L.concat(L.SIGMA_STAR, D, inter(lang, NOD))
-            return minimise(union(r, inter(lang, NOD)))
-        if kind == "rhead":
+            here = union(r, inter(lang, NOD))
+        elif kind == "rhead":
             r = L.concat(lang, D, NOD)
-            return minimise(union(r, NOD) if eps_in else r)
-        if kind in ("sep", "rsep"):
+            here = union(r, NOD) if eps_in else r
+        elif kind in ("sep", "rsep"):
             has_d = lang.accepts([self.alpha.cls_of(d)])
             r = L.contains(d) if has_d else L.EMPTY
-            return minimise(union(r, NOD) if eps_in else r)
-        raise Unsupported(f"view {view}")
+            here = union(r, NOD) if eps_in else r
+        else:
+            raise Unsupported(f"view {view}")
+        return self.lift(minimise(here), parent)
 
     # ------------------------------------------------------------------ functions
     def lang_true(self, fname: str) -> DFA:
@@ -140,15 +155,27 @@ class StrLang:
                     and isinstance(v.func, ast.Attribute)
                     and v.func.attr in ("partition", "rpartition")
                     and isinstance(v.func.value, ast.Name)
-                    and views.get(v.func.value.id) == ("whole",)
+                    and v.func.value.id in views
                     and len(v.args) == 1
                 ):
                     d = self._const_str(v.args[0])
+                    parent = views[v.func.value.id]
                     kinds = ("head", "sep", "tail") if v.func.attr == "partition" else ("rhead", "rsep", "rtail")
                     for t, kind in zip(tgt.elts, kinds):
                         if not isinstance(t, ast.Name):
                             raise Unsupported("partition target")
-                        views[t.id] = (kind, d)
+                        views[t.id] = (kind, d, parent)
+                    continue
+                if (
+                    isinstance(tgt, ast.Name)
+                    and isinstance(v, ast.Call)
+                    and isinstance(v.func, ast.Attribute)
+                    and v.func.attr == "strip"
+                    and not v.args
+                    and isinstance(v.func.value, ast.Name)
+                    and v.func.value.id in views
+                ):
+                    views[tgt.id] = ("strip", views[v.func.value.id])
                     continue
                 if isinstance(tgt, ast.Name) and isinstance(v, ast.Name) and v.id in views:
                     views[tgt.id] = views[v.id]
